@@ -113,12 +113,14 @@ class CHECK(core.Check):
     N_QUICK = 500
     N_THOROUGH = 12000
     N_SEARCH = 1500
-    RULE = ("histories for one Patron over socket-pair doubles: 1-3 top-level requests (GET/HEAD/POST/PUT/DELETE, "
+    RULE = ("histories for one Patron — constructed in every documented way: hostname/port with or without scheme, a "
+            "full URL as path, a caller-supplied plain or TLS connector (scheme given or not), store given or not — "
+            "over socket-pair doubles: 1-3 top-level requests (GET/HEAD/POST/PUT/DELETE, "
             "unicode paths, query args, bodies, some queued while waiting), each answered by a chain of 0-5 redirect "
             "responses (300/301/302/303/307; Location absolute with/without port/path/query/fragment/userinfo, "
             "upper-case scheme/host, network-path, absolute-path, relative-path with ./ and ../, query-only; "
-            "http<->https, other hosts, DNS aliases of the same address, IPv4 literals; bodies of redirect "
-            "responses delivered in pieces) and a final response; ~15% malformed stream (no Location, bad port, "
+            "http<->https, other hosts, DNS aliases of the same address, IPv4 literals; redirect responses "
+            "with bodies of 0-300 bytes, fixed-length or chunked, delivered in pieces, compared in `redirects`) and a final response; ~15% malformed stream (no Location, bad port, "
             "unknown host, ftp scheme, encoded delimiters, '//' paths, bare/duplicate query keys, 305/306/308, "
             "not redirectable). Non-trivial = at least one redirect was followed and a final response delivered; "
             "distinct by case content")
@@ -256,8 +258,26 @@ class CHECK(core.Check):
         scheme = rng.choice(["http", "http", "https"])
         host = rng.choice(["a.test", "b.test", "10.0.0.9"])
         port = rng.choice([None, None, 8080, 80, 443, 81])
-        case = {"dns": dict(self.DNS), "start": {"host": host, "port": port, "scheme": scheme,
-                                                "redirectable": not (malformed and rng.random() < 0.15)}, "ops": []}
+        start = {"host": host, "port": port, "scheme": scheme, "redirectable": not (malformed and rng.random() < 0.15)}
+        # every documented way of constructing a Patron
+        how = rng.choice(["hostport", "hostport", "noscheme", "url", "url", "connector", "connector"])
+        if how == "noscheme":
+            start["scheme"] = ""
+            scheme = "http"
+        elif how == "url":
+            start["url"] = "%s://%s%s/first/path?x=1" % (scheme if rng.random() < 0.8 else scheme.upper(), host,
+                                                         "" if port is None else ":%d" % port)
+            start["host"], start["port"] = "127.0.0.1", None          # taken from the url instead
+            start["scheme"] = rng.choice(["", scheme])
+        elif how == "connector":
+            tls = scheme == "https"
+            start["connector"] = {"tls": tls, "host": host, "port": port if port is not None else (443 if tls else 80)}
+            start["host"], start["port"] = "127.0.0.1", None          # taken from the connector instead
+            start["scheme"] = rng.choice(["", "", scheme])
+            if malformed and rng.random() < 0.2:
+                start["scheme"] = "http" if tls else "https"          # incompatible with the connector: ValueError
+        start["store"] = rng.random() < 0.5
+        case = {"dns": dict(self.DNS), "start": start, "ops": []}
         nreq = rng.choice([1, 1, 1, 2, 3])
         queued_extra = 0
         for i in range(nreq):
@@ -284,8 +304,9 @@ class CHECK(core.Check):
                     if malformed and rng.random() < 0.1:
                         status = rng.choice([305, 306, 308])
                     rb = bytes(rng.randrange(32, 127) for _ in range(rng.choice([0, 0, 5, 40])))
+                    rb = bytes(rng.randrange(256) for _ in range(rng.choice([0, 1, 5, 40, 300]))) if rng.random() < 0.7 else rb
                     case["ops"].append({"op": "resp", "status": status, "location": loc, "body": rb.hex(),
-                                        "pieces": rng.choice([1, 1, 2, 3])})
+                                        "pieces": rng.choice([1, 1, 2, 3]), "chunked": rng.random() < 0.4})
                     if status not in REDIRECT or not case["start"]["redirectable"]:
                         break              # not followed: this response is the final one
                 else:
@@ -295,7 +316,7 @@ class CHECK(core.Check):
                 fstatus = rng.choice([200, 200, 200, 201, 204, 304, 400, 404, 500])
                 fb = bytes(rng.randrange(256) for _ in range(rng.choice([0, 2, 30])))
                 case["ops"].append({"op": "resp", "status": fstatus, "location": None, "body": fb.hex(),
-                                    "pieces": rng.choice([1, 2, 3])})
+                                    "pieces": rng.choice([1, 2, 3]), "chunked": rng.random() < 0.3})
             queued_extra = 0
         return case
 
@@ -320,6 +341,28 @@ class CHECK(core.Check):
                            "ops": [{"op": "request", "method": "GET", "path": "/d/p", "qargs": [["k", "1"]], "body": ""},
                                    {"op": "resp", "status": st, "location": f, "body": "", "pieces": 1},
                                    {"op": "resp", "status": 200, "location": None, "body": "6f6b", "pieces": 1}]}
+        # every documented way of constructing the Patron x a redirect that carries a body (fixed length / chunked)
+        for scheme in ("http", "https"):
+            tls = scheme == "https"
+            dport = 443 if tls else 80
+            starts = [{"host": "a.test", "port": None, "scheme": ""},
+                      {"host": "a.test", "port": dport, "scheme": scheme, "store": True},
+                      {"host": "127.0.0.1", "port": None, "scheme": "", "url": "%s://a.test/p?x=1" % scheme},
+                      {"host": "127.0.0.1", "port": None, "scheme": scheme, "url": "%s://a.test:%d/p" % (scheme, dport), "store": True},
+                      {"host": "127.0.0.1", "port": None, "scheme": "", "connector": {"tls": tls, "host": "a.test", "port": dport}},
+                      {"host": "127.0.0.1", "port": None, "scheme": scheme, "store": True,
+                       "connector": {"tls": tls, "host": "a.test", "port": dport}}]
+            for start in starts:
+                if start["scheme"] == "" and not start.get("url") and not start.get("connector") and tls:
+                    continue       # no scheme anywhere means http
+                for f in ("/x?k=v", "x", "http://b.test/x", "https://b.test/x"):
+                    for chunked in (False, True):
+                        yield {"dns": dict(self.DNS), "start": dict(start, redirectable=True),
+                               "ops": [{"op": "request", "method": "GET", "path": "/d/p", "qargs": [], "body": ""},
+                                       {"op": "resp", "status": 302, "location": f, "body": "6d6f766564", "pieces": 2,
+                                        "chunked": chunked},
+                                       {"op": "resp", "status": 200, "location": None, "body": "6f6b", "pieces": 1,
+                                        "chunked": not chunked}]}
         if tier == "thorough":
             for scheme in ("http", "https"):
                 for f in forms:
@@ -388,11 +431,20 @@ class CHECK(core.Check):
                 else:
                     idle = 0
 
-        with D.patched(net), D.recorded(calls, [hc, httping]):
+        with D.patched(net) as (C, T), D.recorded(calls, [hc, httping]):
             mark = 0
             try:
                 st = case["start"]
-                p = hc.Patron(hostname=st["host"], port=st["port"], scheme=st["scheme"], redirectable=st["redirectable"])
+                kw = dict(hostname=st["host"], port=st["port"], scheme=st["scheme"], redirectable=st["redirectable"])
+                if st.get("url"):
+                    kw["path"] = st["url"]
+                if st.get("store"):
+                    from ioflo.base import storing
+                    kw["store"] = storing.Store(stamp=0.0)
+                if st.get("connector"):
+                    cn = st["connector"]
+                    kw["connector"] = (T if cn["tls"] else C)(host=cn["host"], port=cn["port"])
+                p = hc.Patron(**kw)
                 p.open()
                 lines.append(self._events_to_effects(net.log[mark:], net))
             except Exception as ex:
@@ -415,12 +467,21 @@ class CHECK(core.Check):
                             continue
                         conn = pending.pop(0)
                         body = bytes.fromhex(op["body"])
-                        head = b"HTTP/1.1 %d Status\r\nContent-Length: %d\r\n" % (op["status"], len(body))
+                        req_method = [e for e in net.log if e[0] == "REQ" and e[1] == conn["id"]][-1][2]
+                        nobody = req_method == "HEAD" or op["status"] in (204, 304)
+                        chunked = op.get("chunked") and not nobody
+                        head = b"HTTP/1.1 %d Status\r\n" % op["status"]
+                        head += b"Transfer-Encoding: chunked\r\n" if chunked else b"Content-Length: %d\r\n" % len(body)
                         if op["location"] is not None:
                             head += b"Location: " + op["location"].encode("utf-8") + b"\r\n"
                         head += b"\r\n"
-                        req_method = [e for e in net.log if e[0] == "REQ" and e[1] == conn["id"]][-1][2]
-                        wire = head + (b"" if (req_method == "HEAD" or op["status"] in (204, 304)) else body)
+                        if chunked:
+                            n3 = max(1, len(body) // 3)
+                            parts = [body[i:i + n3] for i in range(0, len(body), n3)]
+                            payload = b"".join(b"%x\r\n%s\r\n" % (len(c), c) for c in parts) + b"0\r\n\r\n"
+                        else:
+                            payload = body
+                        wire = head + (b"" if nobody else payload)
                         k = max(1, min(op.get("pieces", 1), len(wire)))
                         cut = [len(wire) * i // k for i in range(k + 1)]
                         before = len(net.log)
@@ -442,7 +503,7 @@ class CHECK(core.Check):
 
                 def rec(r):
                     loc = r["headers"].get("location")
-                    return "%d %s %s" % (r["status"], "~" if loc is None else hx(loc), snap(r))
+                    return "%d %s %s %s" % (r["status"], "~" if loc is None else hx(loc), snap(r), bytes(r["body"]).hex() or "-")
                 s = "final %d %d %d" % (1 if p.waited else 0, len(p.redirects), len(p.responses))
                 for r in p.responses:
                     chain = r.get("redirects", [])
@@ -491,8 +552,10 @@ class CHECK(core.Check):
         std = self._trace.get(key, [])
         st = case["start"]
         out = ["begin"] + std
-        out.append("init %s %s %s %d" % (hx(st["host"]), "~" if st["port"] is None else st["port"], hx(st["scheme"]),
-                                         1 if st["redirectable"] else 0))
+        cn = st.get("connector")
+        out.append("init %s %s %s %s %d %s" % (hx(st.get("url") or "/"), hx(st["host"]), "~" if st["port"] is None else st["port"],
+                                               hx(st["scheme"]), 1 if st["redirectable"] else 0,
+                                               "~" if not cn else "%d %s %d" % (1 if cn["tls"] else 0, hx(cn["host"]), cn["port"])))
         # what the last request's method was decides whether the stub server wrote a body (HEAD): the harness, not the
         # model, plays the server, so the declared/written lengths are inputs of the model
         methods = self._methods_per_resp(case)
@@ -503,7 +566,8 @@ class CHECK(core.Check):
             else:
                 n = len(bytes.fromhex(op["body"]))
                 blen = 0 if (m == "HEAD" or op["status"] in (204, 304)) else n
-                out.append("resp %d %s %d %d" % (op["status"], "~" if op["location"] is None else hx(op["location"]), n, blen))
+                out.append("resp %d %s %d %d %s" % (op["status"], "~" if op["location"] is None else hx(op["location"]), n, blen,
+                                                    (op["body"] or "-") if blen else "-"))
         out.append("final")
         self._nstd = len(std) + 1
         return out
@@ -543,14 +607,33 @@ class CHECK(core.Check):
 
     def _judge(self, case, out, target_failures):
         st = case["start"]
+        dns = case["dns"]
+        # where the documented constructor arguments say the Patron connects: a caller-supplied connector dictates
+        # scheme and endpoint, then a full URL given as path, then hostname/port/scheme; no scheme means http
+        cn = st.get("connector")
+        given = st["scheme"].lower()
+        host, port_arg = st["host"], st["port"]
+        if st.get("url") and "://" in st["url"]:
+            us, _, rest = st["url"].partition("://")
+            auth = re.split(r"[/?#]", rest, 1)[0]
+            host, ptxt = authority_host_port(auth)
+            port_arg = int(ptxt) if ptxt else None
+            given = us.lower()
+        if cn:
+            if given and (given == "https") != cn["tls"]:
+                if out and out[0] == "err ValueError":
+                    return None    # a connector of the wrong kind for the scheme is refused
+                return "connector tls=%s accepted with scheme %r: %s" % (cn["tls"], given, out[:1])
+            scheme = "https" if cn["tls"] else "http"
+            host, port = cn["host"], cn["port"]
+        else:
+            scheme = "https" if given == "https" else "http"
+            port = port_arg if port_arg is not None else (443 if scheme == "https" else 80)
         if not out or out[0].startswith("err") or out[0] == "dead":
             return "Patron could not be created/opened: %s" % out[:1]
         if any(l.startswith("HARNESS-EXC") for l in out):
             return "harness exception: %s" % [l for l in out if l.startswith("HARNESS-EXC")][0]
-        dns = case["dns"]
-        scheme = "https" if st["scheme"].lower() == "https" else "http"
-        port = st["port"] if st["port"] is not None else (443 if scheme == "https" else 80)
-        ip = dns.get(st["host"], st["host"])
+        ip = dns.get(host.lower(), host)
         m = re.fullmatch(r"open (\S+) (-?\d+) ([01])", out[0])
         if not m or (bytes.fromhex(m.group(1)).decode(), int(m.group(2)), m.group(3) == "1") != (ip, port, scheme == "https"):
             return "initial connection %r is not %s:%s tls=%s" % (out[0], ip, port, scheme == "https")
@@ -591,6 +674,8 @@ class CHECK(core.Check):
                 return None        # unsolicited response: not a history the property speaks about
             status, loc = op["status"], op["location"]
             follow = st["redirectable"] and status in REDIRECT
+            # the body this response carries on the wire: none in answer to HEAD, none with 204/304
+            carried = "" if (cur["method"] == "HEAD" or status in (204, 304)) else op["body"]
 
             def tag_along():
                 """no demand on this hop: go where the client went (if it sent one request) and keep judging"""
@@ -601,7 +686,7 @@ class CHECK(core.Check):
                 endpoint = (bytes.fromhex(f[1]).decode(), int(f[2]), f[3] == "1")
                 scheme = "https" if endpoint[2] else "http"
                 tgt = bytes.fromhex(f[5]).decode() if f[5] != "-" else ""
-                cur["chain"].append((status, loc))
+                cur["chain"].append((status, loc, carried))
                 cur["base_path"] = unquote_to_bytes(tgt.partition("?")[0]).decode("utf-8", "replace")
                 cur["query"] = tgt.partition("?")[2] or None
                 return True
@@ -616,7 +701,7 @@ class CHECK(core.Check):
                     return "op %d: final response %d not delivered (%s)" % (i, status, line)
                 if effs.count("deliver") != 1:
                     return "op %d: delivered more than once" % i
-                expect_final.append((status, list(cur["chain"])))
+                expect_final.append((status, carried, list(cur["chain"])))
                 delivered += 1
                 cur = None
                 if queue:
@@ -647,7 +732,7 @@ class CHECK(core.Check):
                 if tag_along():    # no demand on this hop
                     continue
                 return None
-            cur["chain"].append((status, loc))
+            cur["chain"].append((status, loc, carried))
             if ra == SAME:         # same authority as the outstanding request
                 t_ip, t_port = endpoint[0], endpoint[1]
                 same_auth = True
@@ -722,9 +807,11 @@ class CHECK(core.Check):
             if int(last[3]) != delivered:
                 return "%d responses in .responses, %d final responses were delivered" % (int(last[3]), delivered)
             recs = self._parse_final(last)
-            for (status, chain), (rstatus, rchain) in zip(expect_final, recs):
+            for (status, body, chain), (rstatus, rbody, rchain) in zip(expect_final, recs):
                 if rstatus != status:
                     return "response status %d, expected %d" % (rstatus, status)
+                if rbody != body:
+                    return "final response %d has body %r, the server sent %r" % (status, rbody, body)
                 if rchain != chain:
                     return "final response %d carries redirects %r, the chain was %r" % (status, rchain, chain)
         elif last and last[0] != "dead":
@@ -733,18 +820,19 @@ class CHECK(core.Check):
 
     @staticmethod
     def _parse_final(tok):
+        """records are `status location host port scheme method path body`"""
         recs, i = [], 4
         def one(j):
             status = int(tok[j]); loc = None if tok[j + 1] == "~" else bytes.fromhex(tok[j + 1].replace("-", "")).decode()
-            return (status, loc), j + 7
+            return (status, loc, tok[j + 7].replace("-", "")), j + 8
         while i < len(tok) and tok[i] == "R":
-            (status, _loc), j = one(i + 1)
+            (status, _loc, body), j = one(i + 1)
             n = int(tok[j]); j += 1
             chain = []
             for _ in range(n):
                 r, j = one(j)
                 chain.append(r)
-            recs.append((status, chain))
+            recs.append((status, body, chain))
             i = j
         return recs
 
